@@ -13,6 +13,7 @@ verus! {
 //@include prelude/models_types.rs
 //@include contracts/metablock_specs.rs
 //@include contracts/stage_specs.rs
+//@include lemmas/owner_gate.rs
 //@include contracts/stage_specs2.rs
 
 //@take src/models/layout/supply_chain_item.rs trait:SupplyChainItem
@@ -121,6 +122,7 @@ pub proof fn fact_item_rules_inspections(items: Vec<Box<dyn SupplyChainItem>>, l
         assert(mb0.metadata == MetadataWrapper::Layout(layout));
         assert(inspections_ran(mb0.metadata->Layout_0, ins0) && inspection_rules_ok(mb0.metadata->Layout_0, reduced_link_files@));
         reveal_strlit("");
+        lemma_owner_gate_every_key_signed(mb0, layout_keys@);
         assert forall|i: int| 0 <= i < layout.steps@.len() implies reduced_link_files@.contains_key(#[trigger] layout.steps@[i].name) by {
             assert(g1.contains_key(layout.steps@[i].name));
         }
